@@ -208,6 +208,22 @@ theorem c02_rows_nodup [Inhabited V] (q : Query V) (hf : q.noFlat = true)
     · simp [bound, List.lookup] at h
     · exact hall w (by simpa [Query.condVars] using h)
 
+/-- **An empty domain of a selected variable empties the answer**: the product of the domains is empty, so
+    there is no row - whatever the condition (the statement a change that takes an explicit empty domain for
+    "no domain given" breaks). -/
+theorem c02_empty_domain_no_rows [Inhabited V] (q : Query V) (hf : q.noFlat = true)
+    (hne : ∀ v ∈ q.condVars, v ∉ Terms.vars q.sel → D v ≠ [])
+    (v : VarId) (hv : v ∈ Terms.vars q.sel) (hE : D v = []) :
+    rows W D q = [] := by
+  cases hr : rows W D q with
+  | nil => rfl
+  | cons r rs =>
+    exfalso
+    obtain ⟨α, ha, _, _⟩ := c02_rows_sound W D q hf hne r (by rw [hr]; exact List.mem_cons_self)
+    have := ha v (List.mem_append_right _ hv)
+    rw [hE] at this
+    cases this
+
 /-- **The excluded point is real** (known finding C02-F1): `x` over [1, 2, 3], `z` over the empty
     domain, `an(entity(x, or_(x > 1, z > 1)))`.  The model (like the implementation) returns 2 and
     3, although no admissible assignment of (x, z) exists at all. -/
